@@ -126,12 +126,6 @@ example : (Gen.SoftwareLoader.serviceDefaults
 
 /-! ### composed with the lifecycle FSM: the timed transition completes after the CONFIGURED number of ticks -/
 
-private theorem applyAll_append (l : List SvcEv) (s : Svc) (e : SvcEv) :
-    s.applyAll (l ++ [e]) = ((s.applyAll l).apply e).1 := by
-  induction l generalizing s with
-  | nil => rfl
-  | cons x t ih => simp only [List.cons_append, Svc.applyAll]; exact ih _
-
 /-- **`configured_restart_timing`.**  A RUNNING or PAUSED service that the loader configured (translated code, any `defaults:`
 section that sets `service_restart_duration: v`, any options), then restarted: under every sequence of method calls without
 `disable` it is RESTARTING while at most `max v 0` ticks reached it, and RUNNING at tick `max v 0 + 1` — for `v = 0` at the
